@@ -237,7 +237,7 @@ CHECKS.update({
         'for byte with the model evaluated in Coq on an independent reading of the geometry variables; non-geometry edits '
         '(data variables, global attributes, time steps, Fortran memory layout) must leave it unchanged, each listed geometry '
         'edit must change it, the inventory is compared with the generator\'s knowledge of the geometry variables, and keys '
-        'of files are recomputed in fresh interpreters with PYTHONHASHSEED 0 / 1 / random.',
+        'of files are recomputed in fresh interpreters with PYTHONHASHSEED 0 / 1 / random.  C16_remembered_results_sound / C16_coarse_key_refuted (generic model Memo): results remembered under a key are answered as fresh in every session iff the key separates requests with different answers.',
         'Trusted: Coq kernel; model CacheKey.v (ASCII names).  PARTIAL: key inequality additionally needs BLAKE2b collision '
         'resistance; attribute serialisation is CPython marshal (its dependence on object state is the recorded known finding '
         'cache-key-marshal-object-state); the rank is not length-prefixed, so simultaneous edits of rank, data and attribute '
